@@ -16,7 +16,13 @@ import re
 import lib_layout as L
 import lib_syntax_measure  # C17's builder: the clause for rich.syntax.Syntax, evaluated directly on rich
 from core import enc_str
-# CODE VARIANT FLAGS: none of its own — shared with C01 (see harness/props/c01.py, which follows props/c08.py, c02.py, c07.py); current
+# CODE VARIANT FLAGS
+# MEASURE_SPLITLINES (finding `text-measure-splitlines`, found by this check's builder): 1 = rich 9.10.0 as found — Text.__rich_measure__
+# takes its maximum over text.splitlines() (FS / GS / RS / NEL / LS / PS also break a line there, not in Text.wrap), 0 = since fix 542a59e
+# (text.split("\n")).  Sent in front of every `layout_text_spec` request (model: `textRichMeasureV`).  Overridable for replaying the
+# as-found code: VERIF_C09_MEASURE_SPLITLINES=1 with VERIF_REPO=<a checkout of 52ad8fd>.
+MEASURE_SPLITLINES = int(os.environ.get("VERIF_C09_MEASURE_SPLITLINES", "0"))
+# the other flags: none of its own — shared with C01 (see harness/props/c01.py, which follows props/c08.py, c02.py, c07.py); current
 # value "0,00000000,0000000" = frames variant, text / wrap flags, table flags, all repaired (1 = rich 9.10.0 as found)
 from props.c01 import FLAGS, corner_specs
 
@@ -95,6 +101,21 @@ def _measure_job(args):
 
 
 RE_WORD = re.compile(r"\S+")
+# the `str.splitlines` separators that survive Text.__init__ (VT / FF / CR are stripped) besides the line feed
+SEPS = ["\x1c", "\x1d", "\x1e", "\x85", "\u2028", "\u2029"]
+
+
+def sep_slug(plain):
+    return "text-measure-splitlines" if any(c in plain for c in SEPS) else None
+
+
+def corner_texts():
+    """every separator between words, alone, leading, trailing, next to a line feed, next to double-width characters"""
+    out = []
+    for sp in SEPS:
+        for pat in ("aaa%sbbb cc", "%s", "a%s", "%sb c", "あ%sい う", "a\n b%sc", "x y%s%sz", "long words here%sand there\nshort"):
+            out.append({"plain": pat.replace("%s", sp)})
+    return out
 
 
 def _text_job(args):
@@ -115,7 +136,10 @@ def _text_job(args):
         else:
             exp = (L.cells(plain), L.cells(plain))
         ok = (mn, mx) == exp
-        checks.append((ok, "Text.__rich_measure__", d if not ok else None, f"measured ({mn}, {mx}); widest word / widest line are {exp}", None))
+        checks.append((ok, "Text.__rich_measure__", d if not ok else None, f"measured ({mn}, {mx}); widest word / widest line are {exp}",
+                       sep_slug(plain) if not ok else None))
+    if any(c in plain for c in SEPS):
+        notes["text:other-separator"] = 1
     wrapped = "0"
     if mx >= 1:
         dd = dict(d)
@@ -136,9 +160,10 @@ def _text_job(args):
                 if ok and (t2.justify in (None, "default", "left")):
                     ok = all(a.plain.rstrip() == b.rstrip() for a, b in zip(ls, plain.split("\n")))
                 checks.append((ok, "Text.wrap at measured maximum", (d, mx) if not ok else None,
-                               f"text given its measured maximum {mx} was wrapped into {[x.plain for x in ls]!r}", None))
+                               f"text given its measured maximum {mx} was wrapped into {[x.plain for x in ls]!r}: {len(ls)} lines for "
+                               f"{npar} newline-separated line(s)", sep_slug(plain) if not ok else None))
         dd2 = dict(dd)
-        cases.append(("layout_text_spec", [FLAGS, L.enc_text(dd2), mx], f"{mn},{mx},{wrapped}", None, f"Text({plain!r}).__rich_measure__ / wrap at {mx}"))
+        cases.append(("layout_text_spec", [str(MEASURE_SPLITLINES), FLAGS, L.enc_text(dd2), mx], f"{mn},{mx},{wrapped}", None, f"Text({plain!r}).__rich_measure__ / wrap at {mx}"))
     return {"cases": cases, "checks": checks, "notes": notes}
 
 
@@ -195,7 +220,19 @@ def run(ctx):
     for _ in range(4000 if quick else 80000):
         d = L.gen_text(rng)
         d.pop("overflow", None)
+        if rng.random() < 0.15 and not d.get("spans"):
+            # one of the other `str.splitlines` separators (finding text-measure-splitlines): in place of a blank, or anywhere
+            p = d["plain"]
+            sp = rng.choice(SEPS)
+            if " " in p and rng.random() < 0.6:
+                idx = rng.choice([i for i, c in enumerate(p) if c == " "])
+                p = p[:idx] + sp + p[idx + 1:]
+            else:
+                idx = rng.randint(0, len(p))
+                p = p[:idx] + sp + p[idx:]
+            d = dict(d, plain=p)
         tjobs.append((d,))
+    tjobs = [(d,) for d in corner_texts()] + tjobs
     ctx.note("jobs", len(jobs))
     procs = max(1, min(14, (os.cpu_count() or 2) - 1))
     with multiprocessing.get_context("fork").Pool(procs) as pool:
@@ -257,6 +294,6 @@ MANIFEST = {
     "repaired): its measurement is unsound, and the check prints KNOWN-FINDING lines for it (sites render at measured maximum / minimum).  `text_at_max_not_wrapped` assumes `\\n` is the only line-break character of the text (str.splitlines, used by "
     "the measurement, also breaks at FS/GS/RS/NEL/LS/PS; wrap does not).  Table.__rich_measure__ is modelled here (`tableRichMeasure` of Model/Layout.lean; C07's Model/Table.lean has gained its own "
     "`Table.richMeasure` since, compared per table by ./check C07).  Quirk modelled: an object whose __rich__ returns a str is "
-    "measured (0, available), because Measurement.get converts a str before it follows __rich__.  Documented non-claims (outside C09's quantifier): Syntax.__rich_measure__ is one cell short with line numbers + code_width (C17), Pretty.__rich_measure__ is sound since fix db5535b (C16).  Outside the model: styles.  Trusted base as C01.",
+    "measured (0, available), because Measurement.get converts a str before it follows __rich__.  Documented non-claims (outside C09's quantifier): Syntax.__rich_measure__ is one cell short with line numbers + code_width (C17), Pretty.__rich_measure__ is sound since fix db5535b (C16; fix f3605d0 made it account for the margin — no Pretty measurement is evaluated in this check).  Follow-up of the fourth deepening round: content alphabets and corner trees now include range-boundary characters of rich's width table (shared with c01.py; widths from the table parsed from the source, not rich.cells).  FINDING `text-measure-splitlines` (found by this check's builder, accepted, fixed in /repo by 542a59e; flag MEASURE_SPLITLINES = 0 = fixed, model `textRichMeasureV`, sent in front of every `layout_text_spec` request; 15 % of the random texts and 48 corner texts contain FS/GS/RS/NEL/LS/PS; direct evaluations `Text.__rich_measure__` = widest word / widest newline-separated line by an independent reading, and `a tab-free text rendered at its measured maximum has exactly as many lines as it has newline-separated lines`, slug text-measure-splitlines; on the commit before the fix with the flag at 1 the check exits 1 with a failing input and no mismatch): as found, Text.__rich_measure__ takes its maximum over str.splitlines() while Text.wrap splits at '\\n' only, so a tab-free text containing FS/GS/RS/NEL/LS/PS is wrapped at its own measured maximum (Text('aaa\\x1cbbb cc'): measured (3, 6), rendered at 6 as two lines; soundness 'no line wider than the maximum' still holds).  Theorems: `separator_text_is_wrapped_at_its_maximum` (witness, all six separators, decide +kernel, confirmed on real rich), `text_at_max_not_wrapped_repaired` (with text.split('\\n') the statement holds for every text, no hypothesis), `repaired_measure_agrees_without_other_separators`, `tab_text_is_wrapped_at_its_maximum` (why the statement excludes tabs: expanded before wrapping, counted 0 when measuring); theorems on the flag: `text_at_max_not_wrapped_fixed`, witness `old_text_measure_splitlines_wraps_at_maximum`; repair pending_fixes/C09-text-measure-splitlines.diff (430/430 baseline tests pass with it; applied as 542a59e).  The tree functions `measure` / `render` keep the as-found `textRichMeasure` (they agree with the fixed code on every text without those separators; tree generators produce none).  Outside the model: styles.  Trusted base as C01.",
     "design_ref": "DESIGN.md section 7, C01/C07/C08/C09",
 }
